@@ -290,7 +290,7 @@ func judge(c Case, o Obs) []verdict {
 	}
 	positive := mn > 0 && mx > 0
 	everywhere := mn == -1 && mx == -1
-	mutates := c.Entry != "block"
+	mutates := c.Entry != "block" && c.Entry != "allocate"
 	if c.Entry == "rpcpin-preset" && !everywhere {
 		// the caller supplied the placement: nothing of the property applies
 		// beyond "a failed request changes nothing"
